@@ -134,9 +134,9 @@ fn c01_check(_ctx: &Ctx, c: &SeqCase) -> Report {
       return rep;
     }
     // Subscription::is_subscribed() must be false once a terminal was recorded
-    if evs.iter().any(|e| e.k.is_terminal()) {
-      if let Some((_, row)) = r.log.timeline.last() {
-        if row.get(k).copied().flatten() == Some(true) {
+    if let Some(t) = evs.iter().find(|e| e.k.is_terminal()) {
+      if let Some((st, row)) = r.log.timeline.last() {
+        if *st > t.end && row.get(k).copied().flatten() == Some(true) {
           rep.fail = Some(format!(
             "recorder {}: Subscription::is_subscribed() still true after the terminal | {}",
             k,
